@@ -21,6 +21,9 @@ for n in sorted(os.listdir(S)):
             import re
             mm = re.search(r'"kind": "([^"]+)"', first)
             kind = mm.group(1) if mm else ""
+    if m.get("neutralised_by") and not caught:
+        # a later fix: commit made the change harmless: it breaks nothing any more, there is nothing to catch
+        caught, missed, kind = ["(no longer breaks the property: " + m["neutralised_by"].split(":")[0] + ")"], [], "-"
     rows.append((n, m["property"], m.get("where", ""), m.get("breaks", ""), caught, missed, kind, lr.get("repo_head", ""), lr.get("tier", "")))
 with open(os.path.join(S, "README.md"), "w") as f:
     f.write("# Seeded property-breaking changes\n\nEach directory holds the change (`patch.diff` for tracked sources, `*.c.diff` for the untracked generated C), "
